@@ -39,6 +39,8 @@ func c36(c *engine.Ctx) {
 	if p == nil {
 		return
 	}
+	hhUse(p)
+	hhSetStops()
 	const VSET = "tm2/pkg/bft/types.(*ValidatorSet)."
 	type spec struct {
 		fn       string
@@ -166,7 +168,12 @@ func c36(c *engine.Ctx) {
 			})
 		}
 		ctx := map[string]bool{}
+		// the range element and the indexed element are the same thing
+		canonEl := func(t string) string { return strings.ReplaceAll(t, "commit.Precommits[idx]", "pc") }
 		all := hhCtx(f, tallySite, names, 2)
+		for i := range all {
+			all[i] = canonEl(all[i])
+		}
 		for _, x := range all {
 			ctx[x] = true
 		}
@@ -250,7 +257,7 @@ func c36(c *engine.Ctx) {
 				continue
 			}
 			for _, ft := range hhSufficient(f, f.SiteOf(r)) {
-				if !ft.True && hhNorm(f, ft.E, names, 2) == sig {
+				if !ft.True && canonEl(hhNorm(f, ft.E, names, 2)) == sig {
 					sigErr = true
 				}
 			}
